@@ -81,3 +81,25 @@ package standard
 //@     invariant len(accounts) == len(validatorIndices) && len(subcommittees) == len(validatorIndices)
 //@   loop 3
 //@     invariant aggMapsOK(duty)
+//@
+//@ // ---- C20: the records kept per slot stay within a window of recent slots, whether or not anybody verifies inclusion ----
+//@ // a clean-up is due above 100 records; it leaves only the records of the last 32 slots (none of which it removes)
+//@ func (*Service).RemoveHistoricDataUsedForSlotVerification
+//@   requires s != nil && nolocks()
+//@   loop 1
+//@     invariant forall sl phase0.Slot :: visited(sl) && sl < u64(currentSlot - 32) ==> !in(s.slotDataRecords, sl)
+//@     invariant forall sl phase0.Slot {in(s.slotDataRecords, sl)} :: in(old(s.slotDataRecords), sl) && sl >= u64(currentSlot - 32) ==> in(s.slotDataRecords, sl) && s.slotDataRecords[sl] == old(s.slotDataRecords[sl])
+//@     invariant forall sl phase0.Slot {in(s.slotDataRecords, sl)} :: in(s.slotDataRecords, sl) ==> in(old(s.slotDataRecords), sl)
+//@   ensures old(len(s.slotDataRecords)) > 100 ==> forall sl phase0.Slot {in(s.slotDataRecords, sl)} :: in(s.slotDataRecords, sl) ==> sl >= u64(currentSlot - 32)
+//@   ensures forall sl phase0.Slot {in(s.slotDataRecords, sl)} :: in(old(s.slotDataRecords), sl) && (sl >= u64(currentSlot - 32) || old(len(s.slotDataRecords)) <= 100) ==> in(s.slotDataRecords, sl) && s.slotDataRecords[sl] == old(s.slotDataRecords[sl])
+//@   ensures old(len(s.slotDataRecords)) <= 100 ==> len(s.slotDataRecords) == old(len(s.slotDataRecords))
+//@   modifies contents(s.slotDataRecords)
+//@
+//@ // recording a slot's data keeps the records bounded: afterwards there are at most 101 of them, or only those of the
+//@ // last 32 slots before the one recorded; the record just made is there
+//@ func (*Service).UpdateSyncCommitteeDataRecord
+//@   requires s != nil && nolocks() && s.slotDataRecords != nil
+//@   // (slots below 32 only occur on a chain that starts with sync committees, where there are then fewer than 100 records)
+//@   ensures slot >= 32 || old(len(s.slotDataRecords)) < 100 ==> in(s.slotDataRecords, slot) && s.slotDataRecords[slot].Root == root
+//@   ensures len(s.slotDataRecords) <= 101 || (forall sl phase0.Slot {in(s.slotDataRecords, sl)} :: in(s.slotDataRecords, sl) ==> sl >= u64(slot - 32))
+//@   modifies contents(s.slotDataRecords)
